@@ -402,3 +402,142 @@ fn c07_live_running() {
     assert!(p.is_live() == (st != PeripheralState::Offline));
     assert!(p.is_running() == (st == PeripheralState::DataExchange));
 }
+
+// ------------------------------------------------------------------------------------------------ C07.recover
+// The real Peripheral::transmit_telegram / receive_reply against an ASSUMED reference slave (environment model written
+// from the C07 statement: Wait_Prm / Wait_Cfg / Data_Exch, Slave_Diag always answered, retry detection by FCB).
+#[derive(Clone, Copy, PartialEq, Eq)]
+enum SlSt { WaitPrm, WaitCfg, DataExch }
+#[derive(Clone, Copy, PartialEq, Eq)]
+enum Resp { Sc, Diag, Data, Rs }
+#[derive(Clone, Copy)]
+struct Slave { st: SlSt, stored: Option<bool>, last: Resp }
+
+fn any_slave() -> Slave {
+    Slave {
+        st: match kani::any::<u8>() % 3 { 0 => SlSt::WaitPrm, 1 => SlSt::WaitCfg, _ => SlSt::DataExch },
+        stored: if kani::any() { None } else { Some(kani::any()) },
+        last: match kani::any::<u8>() % 4 { 0 => Resp::Sc, 1 => Resp::Diag, 2 => Resp::Data, _ => Resp::Rs },
+    }
+}
+fn req_kind(h: &crate::fdl::DataTelegramHeader) -> Resp {
+    // which response a conforming slave in the right state gives to this request
+    match h.dsap { Some(60) => Resp::Diag, Some(61) | Some(62) => Resp::Sc, _ => Resp::Data }
+}
+fn slave_step(s: &mut Slave, h: &crate::fdl::DataTelegramHeader) -> Resp {
+    let (fcv, fcb) = match h.fc {
+        crate::fdl::FunctionCode::Request { fcb: crate::fdl::FrameCountBit::First, .. } => (false, true),
+        crate::fdl::FunctionCode::Request { fcb: crate::fdl::FrameCountBit::High, .. } => (true, true),
+        crate::fdl::FunctionCode::Request { fcb: crate::fdl::FrameCountBit::Low, .. } => (true, false),
+        _ => (false, false),
+    };
+    if fcv && s.stored == Some(fcb) { return s.last; }      // retransmission: repeat the last response, do not process
+    s.stored = Some(fcb);
+    let r = match h.dsap {
+        Some(60) => Resp::Diag,
+        Some(61) => { s.st = SlSt::WaitCfg; Resp::Sc }
+        Some(62) => if s.st != SlSt::WaitPrm { s.st = SlSt::DataExch; Resp::Sc } else { Resp::Rs },
+        None => if s.st == SlSt::DataExch { Resp::Data } else { Resp::Rs },
+        _ => Resp::Rs,
+    };
+    s.last = r;
+    r
+}
+/// joint invariant J of master and slave (FCB synchronisation): the slave's stored bit equals the bit of the master's next
+/// request only if that request is the retransmission the slave's stored response belongs to
+fn joint_inv(p: &Peripheral, s: &Slave) -> bool {
+    // state correlation: the slave waits for Chk_Cfg only while the master is still going to send it
+    if matches!(p.state, PeripheralState::ValidateConfig | PeripheralState::PreDataExchange | PeripheralState::DataExchange) && s.st == SlSt::WaitCfg { return false; }
+    let bit = matches!(p.fcb, crate::fdl::FrameCountBit::First | crate::fdl::FrameCountBit::High);
+    let fcv = p.fcb != crate::fdl::FrameCountBit::First;
+    if !fcv || s.stored != Some(bit) { return true; }
+    // In the two states where a rejected reply does not count towards the retry limit (Offline: probe every second call,
+    // ValidateConfig: retry count reset by every reply) a stale stored response would never be replaced: there the slave's
+    // stored response must be the diagnostics response to the request being retransmitted.
+    match p.state {
+        // the slave's stored response answers the very request that is being retransmitted, and the slave is in the
+        // state that processing this request left it in
+        PeripheralState::Offline | PeripheralState::ValidateConfig => s.last == Resp::Diag,
+        PeripheralState::WaitForParam => s.last == Resp::Sc && s.st == SlSt::WaitCfg,
+        PeripheralState::WaitForConfig => (s.last == Resp::Sc && s.st == SlSt::DataExch) || (s.last == Resp::Rs && s.st == SlSt::WaitPrm),
+        _ => true,
+    }
+}
+fn round<'a>(p: &mut Peripheral<'a>, sl: &mut Slave, fdl: &crate::fdl::FdlActiveStation, dp: &crate::dp::DpMasterState, ni: usize, lose_request: bool, lose_reply: bool) {
+    let mut buf = [0u8; 256];
+    let now = crate::time::Instant::ZERO;
+    let before = crate::fdl::__verif_kani_telegram::vk_last_tx().map(|t| t.calls).unwrap_or(0);
+    let r = p.transmit_telegram(now, dp, fdl, crate::fdl::TelegramTx::new(&mut buf), crate::fdl::HighPrioOnly::No);
+    if r.is_err() { return; }
+    let t = crate::fdl::__verif_kani_telegram::vk_last_tx().unwrap();
+    assert!(t.calls == before + 1);
+    if lose_request { return; }
+    let resp = slave_step(sl, &t.h);
+    if lose_reply { return; }
+    let (ts, addr) = (t.h.sa, t.h.da);
+    let flags: u16 = 0x0400 | match sl.st { SlSt::WaitPrm => 0x0100 | 0x0002, SlSt::WaitCfg => 0x0002, SlSt::DataExch => 0 };
+    let diag_pdu = [flags as u8, (flags >> 8) as u8, 0, ts, 0x12, 0x34];
+    let in_data = [0x5au8; PDU_MAX];
+    let ok = crate::fdl::FunctionCode::Response { state: crate::fdl::ResponseState::Slave, status: crate::fdl::ResponseStatus::Ok };
+    let rs = crate::fdl::FunctionCode::Response { state: crate::fdl::ResponseState::Slave, status: crate::fdl::ResponseStatus::SapNotEnabled };
+    let tel = match resp {
+        Resp::Sc => crate::fdl::Telegram::ShortConfirmation(crate::fdl::ShortConfirmation),
+        Resp::Diag => crate::fdl::Telegram::Data(crate::fdl::DataTelegram { h: crate::fdl::DataTelegramHeader { da: ts, sa: addr, dsap: Some(62), ssap: Some(60), fc: ok }, pdu: &diag_pdu }),
+        Resp::Data => crate::fdl::Telegram::Data(crate::fdl::DataTelegram { h: crate::fdl::DataTelegramHeader { da: ts, sa: addr, dsap: None, ssap: None, fc: ok }, pdu: &in_data[..ni] }),
+        Resp::Rs => crate::fdl::Telegram::Data(crate::fdl::DataTelegram { h: crate::fdl::DataTelegramHeader { da: ts, sa: addr, dsap: None, ssap: None, fc: rs }, pdu: &[] }),
+    };
+    let _ = p.receive_reply(now, dp, fdl, tel);
+}
+
+#[cfg(not(verif_thorough))]
+const K_ROUNDS: usize = 12;
+#[cfg(verif_thorough)]
+const K_ROUNDS: usize = 16;
+#[cfg(not(verif_thorough))]
+const LIMIT_MAX: u8 = 2;
+#[cfg(verif_thorough)]
+const LIMIT_MAX: u8 = 5;
+
+/// C07.recover: from every master state (any bring-up state, FCB, retry count, pending diagnostics) and every slave state
+/// related by J, K fault-free rounds bring the peripheral into data exchange, and it stays there.
+#[kani::proof]
+#[kani::unwind(20)]
+#[kani::stub(crate::fdl::TelegramTx::send_data_telegram, crate::fdl::__verif_kani_telegram::vk_stub_send_data_telegram)]
+fn c07_recover() {
+    let mut params = vk_any_params();
+    kani::assume(params.max_retry_limit <= LIMIT_MAX);
+    let fdl = crate::fdl::FdlActiveStation::new(params);
+    let dp = dp_state(true);
+    let mut b = any_bufs();
+    let mut p = any_peripheral(&mut b, any_state());
+    kani::assume(p.options.user_parameters.is_some() && p.options.config.is_some());
+    kani::assume(p.retry_count <= fdl.parameters().max_retry_limit + 1);
+    let ni = p.pi_i().len();
+    let mut sl = any_slave();
+    kani::assume(joint_inv(&p, &sl));
+    let mut k = 0;
+    while k < K_ROUNDS { round(&mut p, &mut sl, &fdl, &dp, ni, false, false); k += 1; }
+    assert!(p.is_running() && sl.st == SlSt::DataExch);
+    round(&mut p, &mut sl, &fdl, &dp, ni, false, false);
+    assert!(p.is_running() && sl.st == SlSt::DataExch && joint_inv(&p, &sl));
+}
+
+/// J is inductive: preserved by any round, fault-free or with a lost request, a lost reply or a slave power cycle
+#[kani::proof]
+#[kani::unwind(20)]
+#[kani::stub(crate::fdl::TelegramTx::send_data_telegram, crate::fdl::__verif_kani_telegram::vk_stub_send_data_telegram)]
+fn c07_joint_inv_inductive() {
+    let fdl = vk_any_fdl();
+    let dp = dp_state(true);
+    let mut b = any_bufs();
+    let mut p = any_peripheral(&mut b, any_state());
+    kani::assume(p.retry_count <= fdl.parameters().max_retry_limit + 1);
+    let ni = p.pi_i().len();
+    let mut sl = any_slave();
+    kani::assume(joint_inv(&p, &sl));
+    if kani::any() { sl = Slave { st: SlSt::WaitPrm, stored: None, last: Resp::Rs }; }     // power cycle
+    let (lq, lr): (bool, bool) = (kani::any(), kani::any());
+    round(&mut p, &mut sl, &fdl, &dp, ni, lq, lr);
+    assert!(joint_inv(&p, &sl));
+    assert!(p.retry_count <= fdl.parameters().max_retry_limit + 1);
+}
